@@ -66,39 +66,40 @@ func main() {
 }
 
 func combine(fields []st.Field) []st.Field {
-	new := st.Field{}
-	cur := ""
 	var out []st.Field
-	wasPad := true
+	// number of leaves merged into each element of out
+	var leaves []int
+	cur := ""
 	for _, field := range fields {
-		var prefix string
 		if field.IsPadding {
-			wasPad = true
 			continue
 		}
 		p := strings.Split(field.Name, ".")
-		prefix = strings.Join(p[:2], ".")
-		if field.Align > new.Align {
-			new.Align = field.Align
-		}
-		if !wasPad {
-			new.End = field.Start
-			new.Size = new.End - new.Start
-		}
+		prefix := strings.Join(p[:2], ".")
 		if prefix != cur {
-			if cur != "" {
-				out = append(out, new)
-			}
 			cur = prefix
-			new = field
-			new.Name = prefix
-		} else {
-			new.Type = "struct"
+			field.Name = prefix
+			out = append(out, field)
+			leaves = append(leaves, 1)
+			continue
 		}
-		wasPad = false
+		group := &out[len(out)-1]
+		group.Type = "struct"
+		if field.Align > group.Align {
+			group.Align = field.Align
+		}
+		group.End = field.End
+		leaves[len(leaves)-1]++
 	}
-	new.Size = new.End - new.Start
-	out = append(out, new)
+	for i := range out {
+		group := &out[i]
+		if leaves[i] > 1 {
+			// The size of a struct is a multiple of its alignment. This
+			// accounts for the padding at the end of the nested struct.
+			group.End = group.Start + align(group.End-group.Start, group.Align)
+		}
+		group.Size = group.End - group.Start
+	}
 	return out
 }
 
